@@ -1,6 +1,507 @@
 import Driver.Util
+import Sqfs.Model.EncInode
+import Sqfs.Model.EncDir
+import Sqfs.Model.EncMeta
+import Sqfs.Model.EncXattr
+import Sqfs.Model.IdTable
+import Sqfs.Model.EncTree
+import Sqfs.Spec.PackSpec
+/-!
+`sqfsmodel c01 [units]` — line protocol of the C01 unit-level correspondence; the same lines go to
+`harness/h_c01u.c` (the real library) and the two outputs must be identical.
+
+Inode descriptions (input and output), all numbers decimal, byte strings hex (`-` = empty):
+```
+dir   M U G T N  sb nl sz off par                    file   M U G T N  st fi fo sz words
+slink M U G T N  nl ts target                        bdev|cdev M U G T N  nl devno         fifo|sock M U G T N  nl
+xdir  M U G T N  nl sz sb par ic off x index         xfile  M U G T N  st sz sp nl fi fo x words
+xslink M U G T N nl ts target x                      xbdev|xcdev M U G T N nl devno x      xfifo|xsock M U G T N nl x
+```
+`words` = comma separated block size words or `-`; `index` = `index/start_block/namehex;…` or `-`.
+
+Ops (see `docs/design/C01-units.md`): `inode`, `mkext`, `mkextfix`, `mkbasic`, `setx`, `snode`, `dirl`, `meta`,
+`table`, `idtab`, `frag`, `export`, `super`, `xattr`.
+-/
 namespace Driver.C01
-/-- stub: the model driver for C01 is not built yet -/
+open Sqfs.Enc Sqfs.Consts
+
+def nat? (s : String) : Option Nat := s.toNat?
+
+def natList? (s : String) : Option (List Nat) :=
+  if s = "-" then some [] else (s.splitOn ",").mapM nat?
+
+def showNats (l : List Nat) : String := if l.isEmpty then "-" else ",".intercalate (l.map toString)
+
+def parseIdx (s : String) : Option (List DirIdx) :=
+  if s = "-" then some []
+  else (s.splitOn ";").mapM (fun e =>
+    match e.splitOn "/" with
+    | [a, b, n] => do pure ⟨← nat? a, ← nat? b, ← fromHex n⟩
+    | _ => none)
+
+def showIdx (l : List DirIdx) : String :=
+  if l.isEmpty then "-" else ";".intercalate (l.map (fun e => s!"{e.index}/{e.startBlock}/{toHexTok e.name}"))
+
+def parseBase (m u g t n : String) : Option Base := do pure ⟨← nat? m, ← nat? u, ← nat? g, ← nat? t, ← nat? n⟩
+
+/-- an inode description; returns the inode and the unused tokens -/
+def parseInode : List String → Option (Inode × List String)
+  | "dir" :: m :: u :: g :: t :: n :: sb :: nl :: sz :: off :: par :: r => do
+    pure (.dir (← parseBase m u g t n) (← nat? sb) (← nat? nl) (← nat? sz) (← nat? off) (← nat? par), r)
+  | "file" :: m :: u :: g :: t :: n :: st :: fi :: fo :: sz :: w :: r => do
+    pure (.file (← parseBase m u g t n) (← nat? st) (← nat? fi) (← nat? fo) (← nat? sz) (← natList? w), r)
+  | "slink" :: m :: u :: g :: t :: n :: nl :: ts :: tg :: r => do
+    pure (.slink (← parseBase m u g t n) (← nat? nl) (← nat? ts) (← fromHex tg), r)
+  | "bdev" :: m :: u :: g :: t :: n :: nl :: d :: r => do pure (.dev (← parseBase m u g t n) false (← nat? nl) (← nat? d), r)
+  | "cdev" :: m :: u :: g :: t :: n :: nl :: d :: r => do pure (.dev (← parseBase m u g t n) true (← nat? nl) (← nat? d), r)
+  | "fifo" :: m :: u :: g :: t :: n :: nl :: r => do pure (.ipc (← parseBase m u g t n) false (← nat? nl), r)
+  | "sock" :: m :: u :: g :: t :: n :: nl :: r => do pure (.ipc (← parseBase m u g t n) true (← nat? nl), r)
+  | "xdir" :: m :: u :: g :: t :: n :: nl :: sz :: sb :: par :: ic :: off :: x :: ix :: r => do
+    pure (.dirExt (← parseBase m u g t n) (← nat? nl) (← nat? sz) (← nat? sb) (← nat? par) (← nat? ic) (← nat? off)
+      (← nat? x) (← parseIdx ix), r)
+  | "xfile" :: m :: u :: g :: t :: n :: st :: sz :: sp :: nl :: fi :: fo :: x :: w :: r => do
+    pure (.fileExt (← parseBase m u g t n) (← nat? st) (← nat? sz) (← nat? sp) (← nat? nl) (← nat? fi) (← nat? fo)
+      (← nat? x) (← natList? w), r)
+  | "xslink" :: m :: u :: g :: t :: n :: nl :: ts :: tg :: x :: r => do
+    pure (.slinkExt (← parseBase m u g t n) (← nat? nl) (← nat? ts) (← fromHex tg) (← nat? x), r)
+  | "xbdev" :: m :: u :: g :: t :: n :: nl :: d :: x :: r => do
+    pure (.devExt (← parseBase m u g t n) false (← nat? nl) (← nat? d) (← nat? x), r)
+  | "xcdev" :: m :: u :: g :: t :: n :: nl :: d :: x :: r => do
+    pure (.devExt (← parseBase m u g t n) true (← nat? nl) (← nat? d) (← nat? x), r)
+  | "xfifo" :: m :: u :: g :: t :: n :: nl :: x :: r => do pure (.ipcExt (← parseBase m u g t n) false (← nat? nl) (← nat? x), r)
+  | "xsock" :: m :: u :: g :: t :: n :: nl :: x :: r => do pure (.ipcExt (← parseBase m u g t n) true (← nat? nl) (← nat? x), r)
+  | _ => none
+
+def showBase (b : Base) : String := s!"{b.mode} {b.uidIdx} {b.gidIdx} {b.mtime} {b.inum}"
+
+def showInode : Inode → String
+  | .dir b sb nl sz off par => s!"dir {showBase b} {sb} {nl} {sz} {off} {par}"
+  | .file b st fi fo sz w => s!"file {showBase b} {st} {fi} {fo} {sz} {showNats w}"
+  | .slink b nl ts t => s!"slink {showBase b} {nl} {ts} {toHexTok t}"
+  | .dev b c nl d => s!"{if c then "cdev" else "bdev"} {showBase b} {nl} {d}"
+  | .ipc b c nl => s!"{if c then "sock" else "fifo"} {showBase b} {nl}"
+  | .dirExt b nl sz sb par ic off x ix => s!"xdir {showBase b} {nl} {sz} {sb} {par} {ic} {off} {x} {showIdx ix}"
+  | .fileExt b st sz sp nl fi fo x w => s!"xfile {showBase b} {st} {sz} {sp} {nl} {fi} {fo} {x} {showNats w}"
+  | .slinkExt b nl ts t x => s!"xslink {showBase b} {nl} {ts} {toHexTok t} {x}"
+  | .devExt b c nl d x => s!"{if c then "xcdev" else "xbdev"} {showBase b} {nl} {d} {x}"
+  | .ipcExt b c nl x => s!"{if c then "xsock" else "xfifo"} {showBase b} {nl} {x}"
+
+/-! ### codecs mirrored in `harness/h_c01u.c` -/
+open Sqfs.MetaWriter (Codec Block)
+
+def rawCmp : Codec := fun _ => none
+/-- a chunk of ≥ 4 equal bytes becomes `[byte, len lo, len hi]` -/
+def toyCmp : Codec := fun x =>
+  match x with
+  | [] => none
+  | b :: _ => if x.length ≥ 4 ∧ x.all (· == b) then some [b, UInt8.ofNat (x.length % 256), UInt8.ofNat (x.length / 256 % 256)] else none
+def toyUnc : Unc := fun y =>
+  match y with
+  | [b, lo, hi] => let n := lo.toNat + 256 * hi.toNat; if n ≤ metaBlockSize then some (List.replicate n b) else none
+  | _ => none
+def rawUnc : Unc := fun _ => none
+
+def codecByName : String → Option (Codec × Unc)
+  | "raw" => some (rawCmp, rawUnc)
+  | "toy" => some (toyCmp, toyUnc)
+  | _ => none
+
+/-- with the never-shrinking compressor every flushed block costs 8194 bytes -/
+def rawRef (p : Nat) : Nat := ((p / metaBlockSize * (metaBlockSize + 2)) <<< 16) ||| (p % metaBlockSize)
+def rawPos (ref : Nat) : Option Nat :=
+  let b := ref >>> 16
+  if b % (metaBlockSize + 2) = 0 then some (b / (metaBlockSize + 2) * metaBlockSize + ref % 65536) else none
+
+def showStatus {α} (r : Except Status α) (f : α → String) : String :=
+  match r with
+  | .ok a => s!"0 {f a}"
+  | .error e => s!"{e}"
+
+/-! ### ops -/
+
+def opInode (toks : List String) : String :=
+  match toks with
+  | bs :: tr :: rest =>
+    match nat? bs, fromHex tr, parseInode rest with
+    | some bs, some tr, some (i, []) =>
+      let enc := encInode i
+      let all := enc ++ tr
+      let r := decInode bs all
+      s!"w 0 {toHexTok enc} r " ++ showStatus r (fun (j, rest) => s!"{showInode j} used={all.length - rest.length}")
+    | _, _, _ => "bad-op"
+  | _ => "bad-op"
+
+def opConv (f : Inode → Inode) (toks : List String) : String :=
+  match parseInode toks with
+  | some (i, []) => showInode (f i)
+  | _ => "bad-op"
+
+open Sqfs.DirWriter in
+def parseDEnt (tok : String) : Option (List UInt8 × Nat × Nat × Nat) :=
+  match tok.splitOn "/" with
+  | [nm, n, r, m] => do pure (← fromHex nm, ← nat? n, ← nat? r, ← nat? m)
+  | _ => none
+
+def showEntry (e : DirEntry) : String := s!"{toHexTok e.name}/{e.inum}/{e.typ}/{e.ref}"
+
+open Sqfs.DirWriter in
+/-- add_entry for every token, fail-stop: the accepted entries, or the status of the first refusal -/
+def addAll : List (List UInt8 × Nat × Nat × Nat) → Except Status (List DEnt)
+  | [] => .ok []
+  | (nm, n, r, m) :: rest =>
+    match addEntry nm n r m with
+    | .ok e => match addAll rest with | .ok l => .ok (e :: l) | .error s => .error s
+    | .unsupported => .error errUnsupported
+    | .argInvalid => .error errArgInvalid
+
+open Sqfs.DirWriter in
+/-- `dirl <dpos> <xattr> <parent> <ent>...`: begin at flat position `dpos` of the directory stream, add, end,
+create_inode; then the real reader on the written bytes -/
+def opDirl (toks : List String) : String :=
+  match toks with
+  | dpos :: x :: par :: ents =>
+    match nat? dpos, nat? x, nat? par, ents.mapM parseDEnt with
+    | some dpos, some x, some par, some es =>
+      match addAll es with
+      | .error s => s!"st {s}"
+      | .ok des =>
+        let cost := metaBlockSize + 2
+        let blk := dpos / metaBlockSize * cost
+        let off := dpos % metaBlockSize
+        let runs := dirEnd cost blk off des
+        let bytes := (runs.map encodeRun).flatten
+        let ino := DirInode.toInode (createInode ((blk <<< 16) ||| off) runs des.length 0 x par)
+        let rd := match openDir ino bytes with
+          | none => s!"{errNotDir}"
+          | some s => showStatus (readListing s) (fun l => if l.isEmpty then "-" else " ".intercalate (l.map showEntry))
+        s!"st 0 size={dirSizeOf runs} bytes={toHexTok bytes} ino {showInode ino} rd {rd}"
+    | _, _, _, _ => "bad-op"
+  | _ => "bad-op"
+
+/-- `meta <codec> <p:n,p:n,…|-> <chunkhex>…` -/
+def opMeta (toks : List String) : String :=
+  match toks with
+  | c :: reads :: chunks =>
+    match codecByName c, chunks.mapM fromHex with
+    | some (cmp, unc), some cs =>
+      let rs : Option (List (Nat × Nat)) := if reads = "-" then some [] else (reads.splitOn ",").mapM (fun t =>
+        match t.splitOn ":" with | [a, b] => do pure (← nat? a, ← nat? b) | _ => none)
+      match rs with
+      | none => "bad-op"
+      | some rs =>
+        let st := Sqfs.MetaWriter.run cmp cs
+        let disk := encBlocks st.out
+        let all := showStatus (metaReadAll unc disk) toHexTok
+        let rd := rs.map (fun (p, n) =>
+          let r := refOfPos st.out p
+          s!"{r.1}:{r.2}=" ++ showStatus (metaReadAt unc disk r.1 r.2 n) toHexTok)
+        s!"disk={toHexTok disk} all {all} rd " ++ (if rd.isEmpty then "-" else " | ".intercalate rd)
+    | _, _ => "bad-op"
+  | _ => "bad-op"
+
+/-- `table <codec> <pre> <datahex>`: `pre` filler bytes (0xEE) in front of the table -/
+def opTable (toks : List String) : String :=
+  match toks with
+  | [c, pre, d] =>
+    match codecByName c, nat? pre, fromHex d with
+    | some (cmp, unc), some pre, some data =>
+      let file0 := List.replicate pre (0xEE : UInt8)
+      let (file, start) := writeTableAt cmp file0 data
+      let rd := readTableAt unc file data.length start pre start
+      s!"start={start} file={toHexTok (file.drop pre)} rd " ++ showStatus rd toHexTok
+    | _, _, _ => "bad-op"
+  | _ => "bad-op"
+
+/-- `idtab <pre> <id>…`: id_to_index per id, write, read back, index_to_id of every index -/
+def opIdtab (toks : List String) : String :=
+  match toks with
+  | pre :: ids =>
+    match nat? pre, ids.mapM nat? with
+    | some pre, some ids =>
+      match Sqfs.IdTable.addAll Sqfs.IdTable.limit [] ids with
+      | none => s!"idx {errOverflow}"
+      | some (tbl, idx) =>
+        let file0 := List.replicate pre (0xEE : UInt8)
+        let (file, start) := idTableWrite rawCmp file0 tbl
+        let count := Sqfs.IdTable.superIdCount tbl
+        let rd := idTableRead rawUnc file count start pre start file.length
+        s!"idx 0 {showNats idx} count={count} start={start} file={toHexTok (file.drop pre)} rd " ++ showStatus rd showNats
+    | _, _ => "bad-op"
+  | _ => "bad-op"
+
+/-- `idrange <n>`: ids 1000 … 1000+n-1 (for the 65535/65536 boundary without a 400 KiB line) -/
+def opIdrange (toks : List String) : String :=
+  match toks with
+  | [n] =>
+    match nat? n with
+    | some n =>
+      match Sqfs.IdTable.addAll Sqfs.IdTable.limit [] ((List.range n).map (· + 1000)) with
+      | none => s!"idx {errOverflow}"
+      | some (tbl, _) =>
+        let (file, start) := idTableWrite rawCmp [] tbl
+        let count := Sqfs.IdTable.superIdCount tbl
+        let rd := idTableRead rawUnc file count start 0 start file.length
+        let okk := match rd with | .ok l => decide (l = tbl) | .error _ => false
+        s!"idx 0 count={count} start={start} len={file.length} same={okk}"
+    | none => "bad-op"
+  | _ => "bad-op"
+
+
+/-- `idlimit <n0> <id>…`: the table already holds ids 1000 … 1000+n0-1 -/
+def opIdlimit (toks : List String) : String :=
+  match toks with
+  | n0 :: ids =>
+    match nat? n0, ids.mapM nat? with
+    | some n0, some ids =>
+      if n0 < 1 ∨ n0 > 65535 then "bad-op" else
+      let rec go (tbl : List Nat) (acc : String) : List Nat → List Nat × String
+        | [] => (tbl, acc)
+        | id :: rest =>
+          match Sqfs.IdTable.step Sqfs.IdTable.limit tbl id with
+          | none => (tbl, acc ++ s!" e{errOverflow}")
+          | some (i, t) => go t (acc ++ s!" {Sqfs.IdTable.storedIndex i}") rest
+      let (tbl, acc) := go ((List.range n0).map (· + 1000)) "idx" ids
+      let (file, _) := idTableWrite rawCmp [] tbl
+      s!"{acc} count={Sqfs.IdTable.superIdCount tbl} len={file.length}"
+    | _, _ => "bad-op"
+  | _ => "bad-op"
+
+def parsePair (t : String) : Option (Nat × Nat) :=
+  match t.splitOn "/" with | [a, b] => do pure (← nat? a, ← nat? b) | _ => none
+
+def opFrag (toks : List String) : String :=
+  match toks with
+  | pre :: fr =>
+    match nat? pre, fr.mapM parsePair with
+    | some pre, some frags =>
+      let file0 := List.replicate pre (0xEE : UInt8)
+      let (file, start) := fragTableWrite rawCmp file0 frags
+      let rd := fragTableRead rawUnc file frags.length start pre start
+      s!"start={start} file={toHexTok (file.drop pre)} rd " ++
+        showStatus rd (fun l => if l.isEmpty then "-" else " ".intercalate (l.map (fun f => s!"{f.1}/{f.2}")))
+    | _, _ => "bad-op"
+  | _ => "bad-op"
+
+/-! xattr -/
+
+def parseSet (s : String) : Option (List (Bytes × Bytes)) :=
+  if s = "-" then some []
+  else (s.splitOn ",").mapM (fun kv => match kv.splitOn "=" with | [k, v] => do pure (← fromHex k, ← fromHex v) | _ => none)
+
+def showSet (l : List (Bytes × Bytes)) : String :=
+  if l.isEmpty then "-" else ",".intercalate (l.map (fun kv => s!"{toHexTok kv.1}={toHexTok kv.2}"))
+
+/-- `xattr <fix> <set> <set> …` (`fix` = 1: location stores of the repaired `write_id_table`) -/
+def opXattr (toks : List String) : String :=
+  match toks with
+  | fix :: sets =>
+    match sets.mapM parseSet with
+    | none => "bad-op"
+    | some sets =>
+      match recordAll {} sets with
+      | .error e => s!"rec {e}"
+      | .ok (w, idx) =>
+        if w.pairs.isEmpty ∨ w.blocks.isEmpty then s!"rec 0 {showNats idx} none"           -- flush: NO_XATTRS
+        else
+          let (kv, descs) := flushKv rawRef w
+          let ids := encDescs descs
+          let count := locCount w.blocks.length
+          let cost := metaBlockSize + 2
+          let stores := locStores (if fix = "1" then some count else none)
+            (fun k => (k * sizeofXattrId) / metaBlockSize * cost) w.blocks.length
+          let oob := stores.filter (fun s => s.1 ≥ count)
+          let locs := applyStores count stores
+          let rdr : XReader := { kv := kv, ids := ids, numIds := w.blocks.length, posOf := fun r => rawPos r }
+          let distinct := idx.eraseDups
+          let rd := distinct.map (fun i => s!"{i}:" ++ showStatus (readSet rdr i) showSet)
+          s!"rec 0 {showNats idx} n={w.blocks.length} kv={toHexTok kv} ids={toHexTok ids} locs={showNats locs} " ++
+            s!"oob={oob.length} rd " ++ " ; ".intercalate rd
+  | _ => "bad-op"
+
+/-- `xsets <fix> <n> <vlen>`: `n` distinct one-pair sets `user.k = <i as 4 bytes><vlen-4 zero bytes>` (set counts around
+512/1024 without megabyte lines); prints digests only -/
+def opXsets (toks : List String) : String :=
+  match toks with
+  | [fix, n, vlen] =>
+    match nat? n, nat? vlen with
+    | some n, some vlen =>
+      let key : Bytes := prefixUser ++ [0x6b]
+      let sets := (List.range n).map (fun i => [(key, Sqfs.Writer.le 4 i ++ List.replicate (vlen - 4) 0)])
+      match recordAll {} sets with
+      | .error e => s!"rec {e}"
+      | .ok (w, idx) =>
+        let (kv, descs) := flushKv rawRef w
+        let ids := encDescs descs
+        let count := locCount w.blocks.length
+        let cost := metaBlockSize + 2
+        let stores := locStores (if fix = "1" then some count else none)
+          (fun k => (k * sizeofXattrId) / metaBlockSize * cost) w.blocks.length
+        let oob := stores.filter (fun s => s.1 ≥ count)
+        let locs := applyStores count stores
+        let rdr : XReader := { kv := kv, ids := ids, numIds := w.blocks.length, posOf := fun r => rawPos r }
+        let good := idx.zip sets |>.all (fun (i, s) => match readSet rdr i with | .ok l => l == s | .error _ => false)
+        s!"rec 0 n={w.blocks.length} kvlen={kv.length} idslen={ids.length} locs={showNats locs} oob={oob.length} same={good}"
+    | _, _ => "bad-op"
+  | _ => "bad-op"
+
+
+/-! tree -/
+section Tree
+open Sqfs.FsTree
+
+def splitPath (b : List UInt8) : Path := (b.splitOn 0x2f).filter (· ≠ [])
+
+structure TreeSpec where
+  path : Path
+  t : Char
+  perm : Nat
+  uid : Nat
+  gid : Nat
+  mtime : Nat
+  xattr : Nat
+  extra : String
+
+def parseSpec (tok : String) : Option TreeSpec :=
+  match tok.splitOn "|" with
+  | [ph, t, perm, uid, gid, mt, xa, ex] => do
+    let c ← t.toList.head?
+    pure ⟨splitPath (← fromHex ph), c, ← nat? perm, ← nat? uid, ← nat? gid, ← nat? mt, ← nat? xa, ex⟩
+  | _ => none
+
+def specMode (s : TreeSpec) : Option Nat :=
+  match s.t with
+  | 'd' => some (sIFDIR ||| s.perm) | 'f' => some (sIFREG ||| s.perm) | 'l' => some (sIFLNK ||| s.perm)
+  | 'h' => some (sIFLNK ||| s.perm) | 'b' => some (sIFBLK ||| s.perm) | 'c' => some (sIFCHR ||| s.perm)
+  | 'p' => some (sIFIFO ||| s.perm) | 's' => some (sIFSOCK ||| s.perm) | _ => none
+
+def natsSemi? (s : String) : Option (List Nat) := if s = "-" then some [] else (s.splitOn ";").mapM nat?
+
+/-- the inode the block processor would have left: `b:st:fi:fo:sz:words` / `x:st:sz:sp:fi:fo:words` -/
+def fileInodeOfSpec (ex : String) : Option Inode :=
+  let b : Base := ⟨0, 0, 0, 0, 0⟩
+  match ex.splitOn ":" with
+  | ["b", st, fi, fo, sz, w] => do pure (.file b (← nat? st) (← nat? fi) (← nat? fo) (← nat? sz) (← natsSemi? w))
+  | ["x", st, sz, sp, fi, fo, w] => do pure (.fileExt b (← nat? st) (← nat? sz) (← nat? sp) 1 (← nat? fi) (← nat? fo) NONE32 (← natsSemi? w))
+  | _ => none
+
+/-- `fstree_add_generic` for every spec, fail-stop: the tree, `links_unresolved` (a stack), or the index that failed -/
+def addSpecs (d : Defaults) : List TreeSpec → Nat → TNode → List Path → Except String (TNode × List Path)
+  | [], _, t, l => .ok (t, l)
+  | s :: rest, i, t, l =>
+    match specMode s with
+    | none => .error "bad-op"
+    | some mode =>
+      let hard := s.t == 'h'
+      let ent : Ent := { rel := s.path, path := s.path, mode := mode, uid := s.uid, gid := s.gid, mtime := s.mtime, dev := 0, ino := 0,
+                         rdev := (if s.t == 'b' || s.t == 'c' then (nat? s.extra).getD 0 else 0), mount := false, hard := hard }
+      let extra : Option Extra :=
+        if s.t == 'h' then (fromHex s.extra).map (fun b => Extra.link (splitPath b) none)
+        else if s.t == 'l' then (fromHex s.extra).map Extra.str
+        else if s.t == 'f' then some (Extra.str [])
+        else some Extra.none
+      match extra with
+      | none => .error "bad-op"
+      | some ex =>
+        match addPath d ent ex s.path t with
+        | none => .error s!"add {i} failed"
+        | some t' => addSpecs d rest (i + 1) t' (if hard then s.path :: l else l)
+
+partial def showRNode : RNode → String
+  | .mk name i cs => s!"( {toHexTok name} {showInode i}" ++ String.join (cs.map (fun c => " " ++ showRNode c)) ++ " )"
+
+def opTree (toks : List String) : String :=
+  match toks.mapM parseSpec with
+  | none => "bad-op"
+  | some specs =>
+    let d : Defaults := { uid := 0, gid := 0, mtime := 0, mode := 0o755 }
+    match addSpecs d specs 0 (initRoot d) [] with
+    | .error e => e
+    | .ok (t, links) =>
+      match postProcess t links with
+      | none => "post failed"
+      | some r =>
+        let xattrOf (p : Path) : Nat := match specs.find? (fun s => s.path == p && s.t != 'h') with | some s => s.xattr | none => NONE32
+        let fileInode (p : Path) : Inode :=
+          match specs.find? (fun s => s.path == p && s.t == 'f') with
+          | some s => (fileInodeOfSpec s.extra).getD (.file ⟨0, 0, 0, 0, 0⟩ 0 0 0 0 [])
+          | none => .file ⟨0, 0, 0, 0, 0⟩ 0 0 0 0 []
+        if specs.any (fun s => s.t == 'f' && (fileInodeOfSpec s.extra).isNone) then "bad-op"
+        else
+        match serializeTree r ⟨xattrOf, fileInode⟩ with
+        | .error e => s!"ret {e} n={r.inodes.length} root=0"
+        | .ok out =>
+          let walk := match readTree 4096 out (out.inodeCount * 4 + 8) with
+            | .ok n => s!" {showRNode n} end 0"
+            | .error e => s!" end {e}"
+          s!"ret 0 n={out.inodeCount} root={out.rootRef} inodes={toHexTok out.st.inodes} dirs={toHexTok out.st.dirs} " ++
+            s!"ids={showNats out.st.ids} walk" ++ walk
+
+end Tree
+
+
+/-- `export <pre> <inum/ref>… <root>` -/
+def opExport (toks : List String) : String :=
+  match toks with
+  | pre :: rest =>
+    match nat? pre, rest.mapM parsePair with
+    | some pre, some pairs =>
+      match pairs.reverse with
+      | [] => "bad-op"
+      | root :: revEntries =>
+        let entries := revEntries.reverse
+        if entries.any (fun e => e.1 < 1) then s!"add {errArgInvalid}"
+        else if root.1 < 1 then s!"err {errArgInvalid}"
+        else
+          let tbl := (Sqfs.Pack.exportTable (entries.map (fun e => (e.1, UInt64.ofNat e.2))) (root.1, UInt64.ofNat root.2)).map (·.toNat)
+          let file0 := List.replicate pre (0xEE : UInt8)
+          let (file, start) := exportTableWrite rawCmp file0 tbl
+          let rd := exportTableRead rawUnc file tbl.length start pre start
+          s!"start={start} file={toHexTok (file.drop pre)} rd " ++ showStatus rd showNats
+    | _, _ => "bad-op"
+  | _ => "bad-op"
+
+open Sqfs.Writer in
+/-- `super <bs> <mtime> <comp> <inodes> <flags> <ids> <rootref> <bytes_used> <id> <xattr> <inode> <dir> <frag> <export>` -/
+def opSuper (toks : List String) : String :=
+  match toks.mapM nat? with
+  | some [bs, mt, comp, ic, fl, idc, rr, bu, ids, xs, is, ds, fs, es] =>
+    match superInit bs mt comp with
+    | .error e => s!"init {e}"
+    | .ok s0 =>
+      let s : Super := { s0 with inodeCount := ic, flags := fl, idCount := idc, rootRef := rr, bytesUsed := bu, idStart := ids,
+                                 xattrStart := xs, inodeStart := is, dirStart := ds, fragStart := fs, exportStart := es }
+      let bytes := s.encode
+      let rd := match superRead bytes with
+        | .error e => s!"{e}"
+        | .ok r => s!"0 {r.magic} {r.inodeCount} {r.mtime} {r.blockSize} {r.fragCount} {r.compId} {r.blockLog} {r.flags} {r.idCount} " ++
+            s!"{r.vMajor} {r.vMinor} {r.rootRef} {r.bytesUsed} {r.idStart} {r.xattrStart} {r.inodeStart} {r.dirStart} {r.fragStart} {r.exportStart}"
+      s!"init 0 bytes={toHexTok bytes} rd {rd}"
+  | _ => "bad-op"
+
+def handle (line : String) : String :=
+  match words line with
+  | "inode" :: r => opInode r
+  | "mkext" :: st :: r => match nat? st with | some st => opConv (makeExtendedCur st) r | none => "bad-op"
+  | "mkextfix" :: _ :: r => opConv makeExtended r
+  | "mkbasic" :: r => opConv makeBasic r
+  | "setx" :: x :: r => match nat? x with | some x => opConv (setXattrIndex x) r | none => "bad-op"
+  | "dirl" :: r => opDirl r
+  | "meta" :: r => opMeta r
+  | "table" :: r => opTable r
+  | "idtab" :: r => opIdtab r
+  | "idrange" :: r => opIdrange r
+  | "frag" :: r => opFrag r
+  | "idlimit" :: r => opIdlimit r
+  | "xattr" :: r => opXattr r
+  | "xsets" :: r => opXsets r
+  | "tree" :: r => opTree r
+  | "export" :: r => opExport r
+  | "super" :: r => opSuper r
+  | _ => "bad-op"
+
 def run (_args : List String) : IO Unit := do
-  IO.eprintln "sqfsmodel: model C01 not built yet"
+  let stdin ← IO.getStdin
+  let stdout ← IO.getStdout
+  lineLoop stdin stdout handle
+
 end Driver.C01
